@@ -175,7 +175,17 @@ def run(ctx):
                 packets_before = sc.b.log.counts.get("connected-messages", 0)
                 if for_write:
                     args = [(it.text, it.value) for it in items]
+                    import copy
+                    before_vals = [copy.deepcopy(v) if isinstance(v, (list, dict)) else None for _, v in args]
                     st, out = sc.b.call("write", sc.drv.write, *args) if n > 1 or rng.random() < 0.5 else sc.b.call("write", sc.drv.write, args[0][0], args[0][1])
+                    # the values belong to the caller (who may use the same list for the next request or the next call):
+                    # write() may truncate a COPY of an over-long list, never the list it was given
+                    for (txt_, v_), snap_ in zip(args, before_vals):
+                        if snap_ is not None and v_ != snap_:
+                            res.ev()
+                            res.violation("write-modified-the-callers-value", f"write(({txt_!r}, <{type(v_).__name__} of {len(snap_)}>)) left the caller's object as {v_!r:.100} (was {snap_!r:.100})",
+                                          {"request": txt_})
+                            break
                 else:
                     st, out = sc.b.call("read", sc.drv.read, *[it.text for it in items])
                 dev.inject_status = None
